@@ -89,6 +89,10 @@ struct ObsState {
     /// heights whose want_to_prune is in flight (answer unknown yet)
     prune_in_flight: BTreeSet<u64>,
     marked: BTreeSet<u64>,
+    /// wall clock when the daser read the header of a height: its sampling-window check follows
+    /// that read at once, while the metadata write that announces the attempt comes after a
+    /// (delayed) store call during which the clock may jump
+    header_read_at: BTreeMap<u64, i64>,
 }
 
 struct Obs {
@@ -200,7 +204,7 @@ impl Obs {
         ctx.oracle("C34.inside_window");
         if height <= self.chain.len() {
             let t = time_to_ns(self.chain.time_of(height));
-            let now = ctx.wall_now_ns();
+            let now = st.header_read_at.get(&height).copied().unwrap_or_else(|| ctx.wall_now_ns());
             if t < now - self.sampling_window_ns - EPS_NS {
                 ctx.violation("C34", "inside_window", "daser",
                     format!("sampling of height {height} started although its block is {} s older than the sampling window", (now - self.sampling_window_ns - t) / 1_000_000_000));
@@ -273,6 +277,7 @@ impl StoreObserver for Obs {
             }
             (Call::UpdateMeta(h, cids), Ret::Unit) => self.on_attempt(*h, cids),
             (Call::GetByHeight(h), Ret::Header(hdr)) => {
+                self.st.lock().unwrap().header_read_at.insert(*h, self.ctx.wall_now_ns());
                 // the daser drops everything up to a block that left the window
                 let t = time_to_ns(hdr.time());
                 if t < self.ctx.wall_now_ns() - self.sampling_window_ns {
@@ -531,6 +536,7 @@ async fn run_das(ctx: &Arc<RunCtx>) {
             report_in_flight: false,
             prune_in_flight: BTreeSet::new(),
             marked: BTreeSet::new(),
+            header_read_at: BTreeMap::new(),
         }),
     });
     let store_daser = RecStore::new(inner.clone(), "daser", ctx, obs.clone(), store_delay);
